@@ -142,6 +142,15 @@ type Handle struct {
 	FaultFilter func(op, key string) bool
 	// Quiet handles never park (used for fault-free restarts and base building).
 	Quiet bool
+	casMismatch bool
+}
+
+// SawCASMismatch reports whether a Replace through this handle was refused
+// because the stored value differed from the expected one.
+func (h *Handle) SawCASMismatch() bool {
+	h.mu.Lock()
+	defer h.mu.Unlock()
+	return h.casMismatch
 }
 
 func (st *Store) Handle(name string) *Handle { return &Handle{St: st, Name: name} }
@@ -345,6 +354,9 @@ func (h *Handle) Replace(key string, old, val []byte) error {
 	if !had || !bytes.Equal(cur, old) {
 		ev.Err = ErrCASMismatch.Error()
 		st.mu.Unlock()
+		h.mu.Lock()
+		h.casMismatch = true
+		h.mu.Unlock()
 		h.emit(ev)
 		return ErrCASMismatch
 	}
